@@ -213,13 +213,18 @@ impl Account {
 						&endpoint.name
 					);
 					self.info(&msg);
-					let contacts_changed = hash_contacts(&self.contacts) != acc_ep.contacts_hash;
+					let previous_contacts_hash = acc_ep.contacts_hash.clone();
+					let contacts_changed = hash_contacts(&self.contacts) != previous_contacts_hash;
 					let key_changed = hash_key(&self.current_key)? != acc_ep.key_hash;
 					register_account(endpoint, self).await?;
 					if contacts_changed && !key_changed {
 						// The key is already known to the endpoint, which therefore
 						// returns the existing account and ignores the new contacts
-						// (RFC 8555, section 7.3.1).
+						// (RFC 8555, section 7.3.1). The registration has recorded them
+						// as synchronized: keep the previous fingerprint until the
+						// update has succeeded, so that a failed update is tried again.
+						self.get_endpoint_mut(&endpoint.name)?.contacts_hash = previous_contacts_hash;
+						self.save().await?;
 						update_account_contacts(endpoint, self).await?;
 					}
 					return Ok(());
